@@ -1,7 +1,7 @@
 (* C06 — Fock-basis enumeration and index functions are mutually inverse.
    Only statements closed by [exact]; proofs live in Comb/. *)
 From Coq Require Import ZArith List Sorted.
-From PV Require Import Comb.FockModel Comb.Binom Comb.FockProofs.
+From PV Require Import Comb.FockModel Comb.Binom Comb.FockProofs Comb.FermiModel Comb.FermiProofs.
 Import ListNotations.
 Open Scope Z_scope.
 
@@ -77,8 +77,42 @@ Theorem C06_vectorised_index : forall v,
 Proof. exact fock_index_arr_spec. Qed.
 Print Assumptions C06_vectorised_index.
 
+(* ---- fermionic: 0/1 occupations ---- *)
+(* the fermionic basis (recursive order: n ones, 1 before 0) lists exactly the 0/1 vectors
+   with fewer than c particles ... *)
+Theorem C06_fermionic_basis_complete : forall d c v,
+  In v (f_basis_spec d c) <->
+  (length v = d /\ Forall (fun x => x = 0 \/ x = 1) v /\ (ones v < c)%nat).
+Proof. exact f_basis_spec_complete. Qed.
+Print Assumptions C06_fermionic_basis_complete.
+
+(* ... exactly once ... *)
+Theorem C06_fermionic_basis_nodup : forall d c, NoDup (f_basis_spec d c).
+Proof. exact f_basis_spec_nodup. Qed.
+Print Assumptions C06_fermionic_basis_nodup.
+
+(* ... and the code's rank formula  C(d,n) - 1 - sum_i C(d - q_i - 1, n - i)  plus the sector
+   offset maps the i-th listed vector to i *)
+Theorem C06_fermionic_index_enum : forall d c,
+  map f_index (f_basis_spec d c) = map Z.of_nat (seq 0 (length (f_basis_spec d c))).
+Proof. exact f_index_enum. Qed.
+Print Assumptions C06_fermionic_index_enum.
+
+Theorem C06_fermionic_subspace_index_enum : forall d n,
+  map f_subspace_index (f_sector d n) = map Z.of_nat (seq 0 (length (f_sector d n))).
+Proof. exact f_sub_index_enum. Qed.
+Print Assumptions C06_fermionic_subspace_index_enum.
+
+Theorem C06_fermionic_dimension : forall d c,
+  f_cutoff_dim (Z.of_nat d) (Z.of_nat c) = Z.of_nat (length (f_basis_spec d c)).
+Proof. exact f_cutoff_dim_length. Qed.
+Print Assumptions C06_fermionic_dimension.
+
 (* non-vacuity *)
 Example C06_example_basis : basis 2 3 = [[0;0];[1;0];[0;1];[2;0];[1;1];[0;2]].
 Proof. exact basis_3_3. Qed.
 Example C06_example_index : fock_index [0;3;1;2] = 190.
 Proof. exact index_0312. Qed.
+Example C06_example_fermionic :
+  f_basis_spec 3 4 = [[0;0;0];[1;0;0];[0;1;0];[0;0;1];[1;1;0];[1;0;1];[0;1;1];[1;1;1]].
+Proof. exact f_basis_3. Qed.
